@@ -100,9 +100,22 @@ func genC06(g *Gen) {
 		g.addf("phydec x4001020304%02x0500aabbccdd", b&0xf0)
 		g.addf("phydec x6001020304%02x0500aabbccdd", b&0xf0)
 	}
+	// every FCtrl byte with as many FOpts bytes as its length nibble says, without / with FPort and FRMPayload, both directions
+	for b := 0; b < 256; b++ {
+		for _, mh := range []int{0x40, 0x60, 0x80, 0xa0} {
+			fo := hx(g.r.Bytes(b & 0x0f))[1:]
+			g.addf("phydec x%02x01020304%02x0500%s%s", mh, b, fo, hx(g.r.Bytes(4))[1:])
+			g.addf("phydec x%02x01020304%02x0500%s%02x%s%s", mh, b, fo, 1+g.r.Intn(255), hx(g.r.Bytes(g.r.Intn(20)))[1:], hx(g.r.Bytes(4))[1:])
+		}
+	}
 	reg := builtinRegistry()
 	for i := 0; i < g.scale(1500, 50000); i++ {
-		g.add("phyenc " + g.genAnyFrame(reg, true))
+		f := g.genAnyFrame(reg, true)
+		g.add("phyenc " + f)
+		// and the frames the encoder makes, decoded: every frame kind, join-accept / rejoin layouts included
+		if b := encodeFrameTok(f); b != nil {
+			g.add("phydec " + hx(b))
+		}
 	}
 	for i := 0; i < g.scale(300, 5000); i++ {
 		g.add("encja " + g.key() + " " + g.genJoinFrame("JA", true))
